@@ -110,7 +110,10 @@ ReqCertC02(a, o) ==
 ReqCertC03(a, o) == {
   <<"C03.issuer_name_eq_issuer_subject",    o.issuer = a.issuer.dn /\ ~o.issuerMulti /\
                                             (a.issuer.subjectRaw # "" => o.issuerRaw = a.issuer.subjectRaw)>>,
-  <<"C03.self_signed_issuer_eq_subject",    a.self => o.issuerRaw = o.subjectRaw>>
+  <<"C03.self_signed_issuer_eq_subject",    a.self => o.issuerRaw = o.subjectRaw>>,
+  (* the issuer certificate made from (issuer.kid, signer key) carries KeyId(issuer.kid, signer key) as its subject key identifier *)
+  <<"C03.aki_eq_issuer_ski",    WantAki(a.params) /\ OidAki \notin CustomOids(a.params) /\ Has(o.exts, OidAki) =>
+                                  Ext(o.exts, OidAki).kind = "aki" /\ Ext(o.exts, OidAki).id = [k |-> "some", b |-> KeyId(a.issuer.kid, a.signerKey)]>>
   }
 
 ReqCertC04(a, o) ==
@@ -137,6 +140,8 @@ ReqCertC05(a, o) ==
   <<"C05.extensions_imply_v3",    o.hasExts => o.version = 3>>,
   <<"C05.san_critical_iff_empty_subject",    Has(x, OidSan) => (Ext(x, OidSan).crit <=> p.dn = <<>>)>>,
   <<"C05.bc_critical_in_ca",      p.isCa.k = "Ca" /\ Has(x, OidBc) => Ext(x, OidBc).crit>>,
+  (* a certificate asked for as a CA is a CA certificate only through its basic constraints: without the extension the MUST cannot hold *)
+  <<"C05.ca_carries_basic_constraints",    p.isCa.k = "Ca" /\ OidBc \notin CustomOids(p) => Has(x, OidBc)>>,
   <<"C05.nc_critical",            Has(x, OidNc) => Ext(x, OidNc).crit>>,
   <<"C05.empty_nc_omitted",       p.nc.k = "some" /\ p.nc.perm = <<>> /\ p.nc.excl = <<>> => ~Has(x, OidNc)>>,
   <<"C05.key_ids_noncritical",    /\ Has(x, OidSki) => ~Ext(x, OidSki).crit
